@@ -1704,6 +1704,8 @@ static WBXMLError parse_extension(WBXMLParser *parser, WBXMLTokenType code_space
         }
     
         ext = (WB_UTINY *) wbxml_strdup((const WB_TINY*) parser->langTable->extValueTable[tab_index].xmlName);
+        if (ext == NULL)
+            return WBXML_ERROR_NOT_ENOUGH_MEMORY;
         len = WBXML_STRLEN(parser->langTable->extValueTable[tab_index].xmlName);
         break;
 
